@@ -270,4 +270,13 @@ def gen_RegistryParams(src):
     )
 
 
-GENERATORS = {"RegistryParams": gen_RegistryParams}
+def _safe(src):
+    try:
+        return gen_RegistryParams(src)
+    except (Unrecognised, SyntaxError, OSError):
+        raise
+    except Exception as ex:          # an AST shape nobody thought of: fail closed
+        raise Unrecognised(f"{type(ex).__name__}: {ex}")
+
+
+GENERATORS = {"RegistryParams": _safe}
